@@ -56,9 +56,9 @@ Qed.
 Print Assumptions C18W_add_resorts_renames_reparents.
 
 (* 4. for an entry in sync, the LIVE visibility decides: listed as a port exactly when the signal is port-visible now *)
-Theorem C18W_live_port_iff ops i n v ob p :
+Theorem C18W_live_port_iff ops i n v ob p d :
   let w := wrun ops in
-  wget w (CModule, i) n = Some v -> in_sync w (CModule, i) n v -> w_heap w (v_id v) = Some ob -> o_kind ob = KSignal p ->
+  wget w (CModule, i) n = Some v -> in_sync w (CModule, i) n v -> w_heap w (v_id v) = Some ob -> o_kind ob = KSignal p d ->
   (lookup n (st_views (w_st w (CModule, i)) VPorts) = Some v <-> p = true) /\
   (lookup n (st_views (w_st w (CModule, i)) VSignals) = Some v <-> p = false).
 Proof. intros w. apply live_port_iff. apply cohw_fold, cohw_init. Qed.
@@ -137,7 +137,7 @@ Definition B0 : cid := (CBundle, 0).
 Theorem C18W_parent_refuted_for_shared_objects :
   exists ops n v, wget (wrun ops) M0 n = Some v /\ in_syncb (w_heap (wrun ops)) M0 n v = false.
 Proof.
-  exists [WNew 0 (KSignal false) None; WSet M0 "s" 0; WSet M1 "y" 0], "s", (V 0 (KSignal false) (Some "s")).
+  exists [WNew 0 (KSignal false DNone) None; WSet M0 "s" 0; WSet M1 "y" 0], "s", (V 0 (KSignal false DNone) (Some "s")).
   vm_compute. split; reflexivity.
 Qed.
 Print Assumptions C18W_parent_refuted_for_shared_objects.
@@ -145,7 +145,7 @@ Print Assumptions C18W_parent_refuted_for_shared_objects.
 (* ---- non-vacuity: the histories of the seeded change C18r2-A *)
 (* h1: a signal is promoted to a port, then added again under the name it holds: it moves to `ports` *)
 Example C18W_ex_promote_readd :
-  let ops := [WNew 0 (KSignal false) (Some "d"); WAdd M0 0 None; WVis 0 true] in
+  let ops := [WNew 0 (KSignal false DNone) (Some "d"); WAdd M0 0 None; WVis 0 true] in
   keys (st_views (w_st (wrun ops) M0) VSignals) = ["d"] /\
   all_in_syncb (wrun ops) M0 = false /\
   let w' := wrun (ops ++ [WAdd M0 0 None]) in
@@ -156,7 +156,7 @@ Proof. vm_compute. repeat split. Qed.
 
 (* h2 / h3: an object is taken by another Module and taken back *)
 Example C18W_ex_take_back :
-  let ops := [WNew 0 (KSignal false) (Some "a"); WAdd M0 0 None; WAdd M1 0 None] in
+  let ops := [WNew 0 (KSignal false DNone) (Some "a"); WAdd M0 0 None; WAdd M1 0 None] in
   all_in_syncb (wrun ops) M0 = false /\ all_in_syncb (wrun ops) M1 = true /\
   let w' := wrun (ops ++ [WAdd M0 0 None]) in
   all_in_syncb w' M0 = true /\ all_in_syncb w' M1 = false /\
@@ -165,20 +165,20 @@ Proof. vm_compute. repeat split. Qed.
 
 (* one object under two names; a Signal held by a Module and a Bundle at once (both parents are kept) *)
 Example C18W_ex_two_names_and_bundle :
-  let w := wrun [WNew 0 (KSignal false) None; WSet M0 "a" 0; WSet M0 "b" 0] in
-  keys (st_ns (w_st w M0)) = ["a"; "b"] /\ in_syncb (w_heap w) M0 "b" (V 0 (KSignal false) (Some "b")) = true /\
-  in_syncb (w_heap w) M0 "a" (V 0 (KSignal false) (Some "a")) = false /\
-  let w2 := wrun [WNew 0 (KSignal true) None; WSet M0 "a" 0; WAdd B0 0 None] in
+  let w := wrun [WNew 0 (KSignal false DNone) None; WSet M0 "a" 0; WSet M0 "b" 0] in
+  keys (st_ns (w_st w M0)) = ["a"; "b"] /\ in_syncb (w_heap w) M0 "b" (V 0 (KSignal false DNone) (Some "b")) = true /\
+  in_syncb (w_heap w) M0 "a" (V 0 (KSignal false DNone) (Some "a")) = false /\
+  let w2 := wrun [WNew 0 (KSignal true DNone) None; WSet M0 "a" 0; WAdd B0 0 None] in
   all_in_syncb w2 M0 = true /\ all_in_syncb w2 B0 = true /\
   keys (st_views (w_st w2 M0) VPorts) = ["a"] /\ keys (st_views (w_st w2 B0) VSignals) = ["a"].
 Proof. vm_compute. repeat split. Qed.
 
 (* a rejected addition changes nothing, not even the object's name; re-adding after elaboration is rejected *)
 Example C18W_ex_rejections :
-  let w := wrun [WNew 0 (KSignal false) None; WNew 1 (KSignal false) None; WSet M0 "a" 0] in
+  let w := wrun [WNew 0 (KSignal false DNone) None; WNew 1 (KSignal false DNone) None; WSet M0 "a" 0] in
   wmstep w (WAdd M0 1 (Some "ports")) = None /\
   is_some (wmstep (wmapply w (WAdd M0 1 (Some "ports"))) (WAdd M0 1 (Some "b"))) = true /\
   wmstep (wmapply w (WElab M0)) (WAdd M0 0 None) = None /\
   wmstep (wmapply w (WElab M0)) (WSet M0 "b" 0) = None /\
-  linear [] [WNew 0 (KSignal false) None; WVis 0 true; WSet M0 "a" 0; WNew 1 KInstance None; WAdd M1 1 (Some "a")] = true.
+  linear [] [WNew 0 (KSignal false DNone) None; WVis 0 true; WSet M0 "a" 0; WNew 1 KInstance None; WAdd M1 1 (Some "a")] = true.
 Proof. vm_compute. repeat split. Qed.
